@@ -21,11 +21,46 @@ def refsOf : Obj → List Ref
   | .arg g => [g.ty.base]
   | .dir _ => []
 
+/-- two type expressions have the same shape and the same NAME at their base (the address may differ) -/
+def sameNames : TRef → TRef → Prop
+  | .named r, .named r' => r'.name = r.name
+  | .list t, .list t' => sameNames t t'
+  | .nonNull t, .nonNull t' => sameNames t t'
+  | _, _ => False
+
+theorem sameNames_refl : ∀ t : TRef, sameNames t t
+  | .named _ => rfl
+  | .list t => sameNames_refl t
+  | .nonNull t => sameNames_refl t
+
+theorem sameNames_trans : ∀ {t1 t2 t3 : TRef}, sameNames t1 t2 → sameNames t2 t3 → sameNames t1 t3
+  | .named _, .named _, .named _, a, b => by simp only [sameNames] at *; rw [b, a]
+  | .list t1, .list t2, .list t3, a, b => sameNames_trans (t1 := t1) (t2 := t2) (t3 := t3) a b
+  | .nonNull t1, .nonNull t2, .nonNull t3, a, b => sameNames_trans (t1 := t1) (t2 := t2) (t3 := t3) a b
+  | .named _, .list _, _, a, _ => by simp [sameNames] at a
+  | .named _, .nonNull _, _, a, _ => by simp [sameNames] at a
+  | .list _, .named _, _, a, _ => by simp [sameNames] at a
+  | .list _, .nonNull _, _, a, _ => by simp [sameNames] at a
+  | .nonNull _, .named _, _, a, _ => by simp [sameNames] at a
+  | .nonNull _, .list _, _, a, _ => by simp [sameNames] at a
+  | .named _, .named _, .list _, _, b => by simp [sameNames] at b
+  | .named _, .named _, .nonNull _, _, b => by simp [sameNames] at b
+  | .list _, .list _, .named _, _, b => by simp [sameNames] at b
+  | .list _, .list _, .nonNull _, _, b => by simp [sameNames] at b
+  | .nonNull _, .nonNull _, .named _, _, b => by simp [sameNames] at b
+  | .nonNull _, .nonNull _, .list _, _, b => by simp [sameNames] at b
+
+/-- the same sort of object with ALL its non-reference attributes: for a type kind, name, description, default resolver,
+    type resolver, enum values, protected flag; for a field name, description, deprecation, resolver, subscription resolver,
+    python name; for an argument / input field name, python name, default, description; for a directive name, locations,
+    description. Type references keep their shape and the name at their base. -/
 def SameHead : Obj → Obj → Prop
-  | .type t, .type t' => t'.kind = t.kind ∧ t'.name = t.name
-  | .field _, .field _ => True
-  | .arg _, .arg _ => True
-  | .dir _, .dir _ => True
+  | .type t, .type t' => t'.kind = t.kind ∧ t'.name = t.name ∧ t'.desc = t.desc ∧ t'.dres = t.dres ∧ t'.rtype = t.rtype ∧
+      t'.values = t.values ∧ t'.prot = t.prot
+  | .field f, .field f' => f'.name = f.name ∧ f'.desc = f.desc ∧ f'.depr = f.depr ∧ f'.res = f.res ∧ f'.sub = f.sub ∧ f'.py = f.py ∧
+      sameNames f.ty f'.ty
+  | .arg g, .arg g' => g'.name = g.name ∧ g'.py = g.py ∧ g'.dflt = g.dflt ∧ g'.desc = g.desc ∧ sameNames g.ty g'.ty
+  | .dir d, .dir d' => d'.name = d.name ∧ d'.locs = d.locs ∧ d'.desc = d.desc
   | _, _ => False
 
 def Evolves (chk : Ref → Bool) (o o' : Obj) : Prop :=
@@ -34,10 +69,22 @@ def Evolves (chk : Ref → Bool) (o o' : Obj) : Prop :=
 def StepImp (chk : Ref → Bool) (h h' : Heap) : Prop :=
   ∀ a o, h.read a = some o → ∃ o', h'.read a = some o' ∧ Evolves chk o o'
 
-theorem SameHead.refl (o : Obj) : SameHead o o := by cases o <;> simp [SameHead]
+theorem SameHead.refl (o : Obj) : SameHead o o := by cases o <;> simp [SameHead, sameNames_refl]
 
 theorem SameHead.trans {o1 o2 o3 : Obj} (a : SameHead o1 o2) (b : SameHead o2 o3) : SameHead o1 o3 := by
-  cases o1 <;> cases o2 <;> cases o3 <;> simp_all [SameHead]
+  cases o1 <;> cases o2 <;> cases o3 <;> simp only [SameHead] at a b ⊢ <;> try exact a.elim
+  · obtain ⟨a1, a2, a3, a4, a5, a6, a7⟩ := a
+    obtain ⟨b1, b2, b3, b4, b5, b6, b7⟩ := b
+    exact ⟨b1.trans a1, b2.trans a2, b3.trans a3, b4.trans a4, b5.trans a5, b6.trans a6, b7.trans a7⟩
+  · obtain ⟨a1, a2, a3, a4, a5, a6, a7⟩ := a
+    obtain ⟨b1, b2, b3, b4, b5, b6, b7⟩ := b
+    exact ⟨b1.trans a1, b2.trans a2, b3.trans a3, b4.trans a4, b5.trans a5, b6.trans a6, sameNames_trans a7 b7⟩
+  · obtain ⟨a1, a2, a3, a4, a5⟩ := a
+    obtain ⟨b1, b2, b3, b4, b5⟩ := b
+    exact ⟨b1.trans a1, b2.trans a2, b3.trans a3, b4.trans a4, sameNames_trans a5 b5⟩
+  · obtain ⟨a1, a2, a3⟩ := a
+    obtain ⟨b1, b2, b3⟩ := b
+    exact ⟨b1.trans a1, b2.trans a2, b3.trans a3⟩
 
 theorem Evolves.refl (chk : Ref → Bool) (o : Obj) : Evolves chk o o := ⟨SameHead.refl o, fun _ h => h, fun h => h⟩
 
@@ -162,12 +209,22 @@ theorem typeShape_keep {chk : Ref → Bool} {h h' : Heap} (st : StepImp chk h h'
     | arg _ => simp [SameHead] at hd
     | dir _ => simp [SameHead] at hd
 
+/-- a type object keeps ALL its non-reference attributes -/
+theorem readType_keep_attrs {chk : Ref → Bool} {h h' : Heap} (st : StepImp chk h h') (a : Addr) (t : TypeO) (ht : h.readType a = some t) :
+    ∃ t', h'.readType a = some t' ∧ SameHead (.type t) (.type t') := by
+  obtain ⟨o', hr', hd, _, _⟩ := st a _ (readType_read ht)
+  cases o' with
+  | type t' => exact ⟨t', readType_of_read hr', hd⟩
+  | field _ => simp [SameHead] at hd
+  | arg _ => simp [SameHead] at hd
+  | dir _ => simp [SameHead] at hd
+
 /-- name and kind of a type object never change -/
 theorem readType_keep {chk : Ref → Bool} {h h' : Heap} (st : StepImp chk h h') (a : Addr) (t : TypeO) (ht : h.readType a = some t) :
     ∃ t', h'.readType a = some t' ∧ t'.kind = t.kind ∧ t'.name = t.name := by
   obtain ⟨o', hr', hd, _, _⟩ := st a _ (readType_read ht)
   cases o' with
-  | type t' => exact ⟨t', readType_of_read hr', hd.1, hd.2⟩
+  | type t' => exact ⟨t', readType_of_read hr', hd.1, hd.2.1⟩
   | field _ => simp [SameHead] at hd
   | arg _ => simp [SameHead] at hd
   | dir _ => simp [SameHead] at hd
@@ -189,32 +246,47 @@ theorem healed_ok (reg : List (String × Addr)) (t t' : TRef) (ht : healed reg t
     obtain ⟨u, hu, rfl⟩ := ht
     simpa [TRef.base] using ih u hu
 
+theorem healed_sameNames (reg : List (String × Addr)) (t t' : TRef) (ht : healed reg t = some t') : sameNames t t' := by
+  induction t generalizing t' with
+  | named r =>
+    simp only [healed, Option.map_eq_some_iff] at ht
+    obtain ⟨a, _, rfl⟩ := ht
+    simp [sameNames]
+  | list t ih =>
+    simp only [healed, Option.map_eq_some_iff] at ht
+    obtain ⟨u, hu, rfl⟩ := ht
+    simpa [sameNames] using ih u hu
+  | nonNull t ih =>
+    simp only [healed, Option.map_eq_some_iff] at ht
+    obtain ⟨u, hu, rfl⟩ := ht
+    simpa [sameNames] using ih u hu
+
 theorem healedRefs_ok (reg : List (String × Addr)) (rs : List Ref) : (healedRefs reg rs).all (refOK reg) = true := by
   simp only [List.all_eq_true, healedRefs, List.mem_filterMap, Option.map_eq_some_iff]
   rintro r ⟨r0, _, a, ha, rfl⟩
   simp [refOK, ha]
 
-theorem write_arg_ty (chk : Ref → Bool) (h : Heap) (a : Addr) (g : ArgO) (t : TRef) (hg : h.readArg a = some g) (ht : chk t.base = true) :
-    StepImp chk h (h.write a (.arg { g with ty := t })) :=
-  step_write chk h a _ _ (readArg_read hg) ⟨trivial, fun c hc => by simpa [kids] using hc, fun _ => by simpa [refsOf] using ht⟩
+theorem write_arg_ty (chk : Ref → Bool) (h : Heap) (a : Addr) (g : ArgO) (t : TRef) (hg : h.readArg a = some g) (ht : chk t.base = true)
+    (hsn : sameNames g.ty t) : StepImp chk h (h.write a (.arg { g with ty := t })) :=
+  step_write chk h a _ _ (readArg_read hg) ⟨⟨rfl, rfl, rfl, rfl, hsn⟩, fun c hc => by simpa [kids] using hc, fun _ => by simpa [refsOf] using ht⟩
 
-theorem write_field_ty (chk : Ref → Bool) (h : Heap) (a : Addr) (f : FieldO) (t : TRef) (hf : h.readField a = some f) (ht : chk t.base = true) :
-    StepImp chk h (h.write a (.field { f with ty := t })) :=
-  step_write chk h a _ _ (readField_read hf) ⟨trivial, fun c hc => by simpa [kids] using hc, fun _ => by simpa [refsOf] using ht⟩
+theorem write_field_ty (chk : Ref → Bool) (h : Heap) (a : Addr) (f : FieldO) (t : TRef) (hf : h.readField a = some f) (ht : chk t.base = true)
+    (hsn : sameNames f.ty t) : StepImp chk h (h.write a (.field { f with ty := t })) :=
+  step_write chk h a _ _ (readField_read hf) ⟨⟨rfl, rfl, rfl, rfl, rfl, rfl, hsn⟩, fun c hc => by simpa [kids] using hc, fun _ => by simpa [refsOf] using ht⟩
 
 theorem write_type_fields (chk : Ref → Bool) (h : Heap) (a : Addr) (t : TypeO) (kept : List Addr) (ht : h.readType a = some t)
     (hk : ∀ c, c ∈ kept → c ∈ t.fields) : StepImp chk h (h.write a (.type { t with fields := kept })) :=
-  step_write chk h a _ _ (readType_read ht) ⟨⟨rfl, rfl⟩, fun c hc => by simpa [kids] using hk c (by simpa [kids] using hc),
+  step_write chk h a _ _ (readType_read ht) ⟨⟨rfl, rfl, rfl, rfl, rfl, rfl, rfl⟩, fun c hc => by simpa [kids] using hk c (by simpa [kids] using hc),
     fun hr => by simpa [refsOf, typeRefs] using hr⟩
 
 theorem write_type_ifaces (chk : Ref → Bool) (h : Heap) (a : Addr) (t : TypeO) (new : List Ref) (ht : h.readType a = some t)
     (hn : new.all chk = true) : StepImp chk h (h.write a (.type { t with ifaces := new })) :=
-  step_write chk h a _ _ (readType_read ht) ⟨⟨rfl, rfl⟩, fun c hc => by simpa [kids] using hc, fun hr => by
+  step_write chk h a _ _ (readType_read ht) ⟨⟨rfl, rfl, rfl, rfl, rfl, rfl, rfl⟩, fun c hc => by simpa [kids] using hc, fun hr => by
     cases hk : t.kind <;> simp_all [refsOf, typeRefs]⟩
 
 theorem write_type_members (chk : Ref → Bool) (h : Heap) (a : Addr) (t : TypeO) (new : List Ref) (ht : h.readType a = some t)
     (hn : new.all chk = true) : StepImp chk h (h.write a (.type { t with members := new })) :=
-  step_write chk h a _ _ (readType_read ht) ⟨⟨rfl, rfl⟩, fun c hc => by simpa [kids] using hc, fun hr => by
+  step_write chk h a _ _ (readType_read ht) ⟨⟨rfl, rfl, rfl, rfl, rfl, rfl, rfl⟩, fun c hc => by simpa [kids] using hc, fun hr => by
     cases hk : t.kind <;> simp_all [refsOf, typeRefs]⟩
 
 /-! ### visitors as steps -/
